@@ -180,6 +180,7 @@ def observer_arms(d, T, validated):
         creators["canon_via_from"] = "Some(<%s as From<Inner>>::from(x.clone()))" % T
     if serde_ok:
         creators["canon_via_deser"] = "serde_json::to_string(&x).ok().and_then(|s| serde_json::from_str::<%s>(&s).ok())" % T
+        creators["canon_via_deser_mp"] = "probe::ser(\"msgpack\", &x).ok().and_then(|d| probe::de::<%s>(\"msgpack\", &d).ok())" % T
         # values obtained (if at all) on routes that do not go through visit_newtype_struct
         creators["canon_via_deser_seq"] = "serde_json::to_string(&x).ok().and_then(|s| probe::de::<%s>(\"seq_json\", &probe::Doc::Text(s)).ok())" % T
         creators["canon_via_deser_ronv"] = "probe::ser(\"ron\", &refty::Nt(x.clone())).ok().and_then(|d| probe::de::<%s>(\"ron_value\", &d).ok())" % T
@@ -286,13 +287,13 @@ def observer_arms(d, T, validated):
             'match <%s as ::arbitrary::Arbitrary>::arbitrary(&mut u) { Ok(t) => ok(t.into_inner().enc()), Err(_) => json!({"k": "aerr"}) } }), Value::Null) }' % T)
         if fam == "int":
             arms.append(
-                '"arb_cover" => { let mut got: Vec<i128> = Vec::new(); let (mut oks, mut errs, mut panics) = (0u64, 0u64, 0u64); let mut witness = Value::Null; '
+                '"arb_cover" => { (with_timeout(300000, move || { let mut got: Vec<i128> = Vec::new(); let (mut oks, mut errs, mut panics) = (0u64, 0u64, 0u64); let mut witness = Value::Null; '
                 'let mut one = |bytes: &[u8]| { let mut u = ::arbitrary::Unstructured::new(bytes); '
                 'let r = ::std::panic::catch_unwind(::std::panic::AssertUnwindSafe(|| <%s as ::arbitrary::Arbitrary>::arbitrary(&mut u).map(|t| t.into_inner()))); '
                 'match r { Ok(Ok(v)) => { oks += 1; got.push(v as i128); } Ok(Err(_)) => errs += 1, Err(_) => { panics += 1; if witness.is_null() { witness = json!(bytes); } } } }; '
                 'one(&[]); for a in 0..=255u8 { one(&[a]); } for a in 0..=255u8 { for b in 0..=255u8 { one(&[a, b]); } } '
                 'let runs: Vec<Value> = runs_i128(got).into_iter().map(|(lo, hi)| json!([lo.to_string(), hi.to_string()])).collect(); '
-                '(json!({"k": "obs", "runs": runs, "oks": oks, "errs": errs, "panics": panics, "witness": witness}), Value::Null) }' % T)
+                'json!({"k": "obs", "runs": runs, "oks": oks, "errs": errs, "panics": panics, "witness": witness}) }), Value::Null) }' % T)
     # ---- ser / deser
     if serde_ok:
         arms.append(
